@@ -50,13 +50,19 @@ Theorem mk_zone_spec bits s e n z :
   mk_zone bits s e n = Ok z ->
   s <= e /\ e <= 2 ^ bits - 1 /\ z_start z = s /\ z_end z = e /\ z_cur z = s /\ z_name z = n.
 Proof.
-  unfold mk_zone. destruct (e >? 2 ^ bits - 1) eqn:E1; [discriminate|].
+  unfold mk_zone. destruct (s <? 0) eqn:E0; [discriminate|]. destruct (e >? 2 ^ bits - 1) eqn:E1; [discriminate|].
   destruct (s >? e) eqn:E2; [discriminate|]. intros H; inversion H; subst; cbn. repeat split; lia.
+Qed.
+
+Theorem mk_zone_inside_space bits s e n z : mk_zone bits s e n = Ok z -> 0 <= z_start z /\ z_end z <= 2 ^ bits - 1.
+Proof.
+  unfold mk_zone. destruct (s <? 0) eqn:E0; [discriminate|]. destruct (e >? 2 ^ bits - 1) eqn:E1; [discriminate|].
+  destruct (s >? e) eqn:E2; [discriminate|]. intros H; inversion H; subst; cbn. lia.
 Qed.
 
 Theorem mk_zone_rejects bits s e n : (s > e \/ e > 2 ^ bits - 1) -> mk_zone bits s e n = Rejected.
 Proof.
-  intros H. unfold mk_zone. destruct (e >? 2 ^ bits - 1) eqn:E1; [reflexivity|].
+  intros H. unfold mk_zone. destruct (s <? 0) eqn:E0; [reflexivity|]. destruct (e >? 2 ^ bits - 1) eqn:E1; [reflexivity|].
   destruct (s >? e) eqn:E2; [reflexivity|]. lia.
 Qed.
 
